@@ -69,6 +69,7 @@ METHOD_GROUPS = {
     "C03": "ema,dma,tma,dema,tema,rma,wsma,tsi,vidya,tr,heikin,integral,adi",
     "C04": "highest,lowest,hldelta,hindex,lindex,smm,medad",
     "C14": "cross_above,cross_under,cross,upper_rev,lower_rev,reversal",
+    "C15": "sma,wma,swma,trima,hma,linreg,ema,dma,tma,dema,tema,rma,wsma,smm,vidya,vwma,conv",
 }
 
 NUMERIC_TRUST = [
@@ -428,6 +429,28 @@ def C20(c):
              "to 4096 through the Lean model at P=65535; f32 build: full method suite through the model at single-precision allowance")
 
 
+def C15(c):
+    c.proofs()
+    exe = need_harness(c)
+    if exe:
+        c.add_suite(run_suite(exe, "malaw", c.seed, c.tier, "C15-malaw"), sig_method)
+        r = run_suite(exe, "methods", c.seed, c.tier, "C15-methods", ["--methods", METHOD_GROUPS["C15"]])
+        c.add_suite(r, sig_method)
+        c.coverage["spec_evaluations"] = r.get("summary", {}).get("spec_evals", 0)
+    return c.finish(
+        level="proof",
+        trusted=TRUSTED_COMMON + NUMERIC_TRUST + [
+            "theorems are about the specs of SMA, WMA and the exponential recurrence; the other kinds are checked by metamorphic "
+            "relations on the real code (tolerance = the DESIGN §3.2 allowance at the scale of the mapped stream) and against their "
+            "weight-profile specs through the model",
+        ],
+        rule="15 MA kinds x lengths {1,2,3,4,5,8,13,31,100,127,254} (thorough: all 1..254): MA(a*x+b) vs a*MA(x)+b for "
+             "(a,b) in {(2,3),(-1.5,10),(0.001,-7),(-1,0)}, constants, MA(x+y) vs MA(x)+MA(y) for the linear kinds, hull of the values "
+             "given for the non-negative kinds incl. volatile->flat->volatile / scale-jump / plateau streams, impulse responses (sum = 1, "
+             "non-negative); Conv with positive weights and VWMA with positive volumes: hull; plus the method suite (with unit-impulse "
+             "streams) through model and weight-profile specs")
+
+
 def replay(prop, path):
     """re-run a replay file: real code through the harness, then the driver"""
     text = open(path).read()
@@ -465,4 +488,4 @@ def replay(prop, path):
     return 1 if res["mismatches"] or res.get("error") else 0
 
 
-PROPS = {"C01": C01, "C02": C02, "C03": C03, "C04": C04, "C14": C14, "C16": C16, "C18": C18, "C17": C17, "C09": C09, "C08": C08, "C10": C10, "C11": C11, "C13": C13, "C19": C19, "C20": C20}
+PROPS = {"C01": C01, "C02": C02, "C03": C03, "C04": C04, "C14": C14, "C16": C16, "C18": C18, "C17": C17, "C09": C09, "C08": C08, "C10": C10, "C11": C11, "C13": C13, "C19": C19, "C20": C20, "C15": C15}
